@@ -53,7 +53,7 @@ type c49Prog struct {
 }
 
 func c49Progs(thorough bool) []c49Prog {
-	ipv4 := []byte{0, 1, 2, 3, 4, 5, 6, 7, 8, 9, 10, 11, 0x08, 0x00, 0x45, 0x11, 0x22, 0x33, 0x44, 0x55}
+	ipv4 := []byte{0, 1, 2, 3, 4, 5, 6, 7, 8, 9, 10, 11, 0x08, 0x00, 0x41, 0x11, 0x22, 0x33, 0x44, 0x55}
 	arp := []byte{0, 1, 2, 3, 4, 5, 6, 7, 8, 9, 10, 11, 0x08, 0x06, 0x46, 0xa1, 0xa2, 0xa3}
 	short := []byte{0xde, 0xad, 0xbe}
 	ps := []c49Prog{
@@ -95,7 +95,7 @@ func c49Progs(thorough bool) []c49Prog {
 			real.ALUOpX{Op: real.ALUOpXor},
 			real.ALUOpConstant{Op: real.ALUOpShiftRight, Val: 1},
 			real.ALUOpX{Op: real.ALUOpShiftLeft},
-			real.ALUOpConstant{Op: real.ALUOpOr, Val: 5},
+			real.ALUOpConstant{Op: real.ALUOpOr, Val: 0x500},
 			real.ALUOpX{Op: real.ALUOpDiv},
 			real.RetA{},
 		}, [][]byte{short, {}, ipv4}},
@@ -112,17 +112,17 @@ func c49Progs(thorough bool) []c49Prog {
 		{"jumps", []real.Instruction{
 			real.LoadAbsolute{Off: 0, Size: 1},
 			real.LoadConstant{Dst: real.RegX, Val: 0xde},
-			real.JumpIfX{Cond: real.JumpEqual, SkipTrue: 1},
+			real.JumpIfX{Cond: real.JumpGreaterOrEqual, SkipTrue: 1},
 			real.Jump{Skip: 4},
-			real.JumpIf{Cond: real.JumpGreaterThan, Val: 0xdd, SkipFalse: 4},
+			real.JumpIf{Cond: real.JumpEqual, Val: 0xde, SkipFalse: 1},
 			real.JumpIf{Cond: real.JumpBitsSet, Val: 0x21, SkipTrue: 4},
-			real.JumpIfX{Cond: real.JumpLessThan, SkipTrue: 4, SkipFalse: 1},
+			real.JumpIfX{Cond: real.JumpLessOrEqual, SkipTrue: 4},
 			real.RetConstant{Val: 101},
 			real.JumpIf{Cond: real.JumpNotEqual, Val: 0, SkipTrue: 1},
 			real.RetConstant{Val: 102},
 			real.RetConstant{Val: 103},
 			real.RetConstant{Val: 104},
-		}, [][]byte{short, ipv4, {0x21}}},
+		}, [][]byte{short, ipv4, {0x21}, {0xff}}},
 		// programs NewVM rejects: the error must be the sequential one
 		{"bad-jump", []real.Instruction{real.LoadConstant{Dst: real.RegA, Val: 1}, real.JumpIf{Cond: real.JumpEqual, Val: 1, SkipTrue: 1}, real.RetA{}}, nil},
 		{"bad-div0", []real.Instruction{real.ALUOpConstant{Op: real.ALUOpMod, Val: 0}, real.RetA{}}, nil},
@@ -186,7 +186,7 @@ func c49Ops(thorough bool) []vsched.Op {
 func TestVerif_C49_globals(t *testing.T) {
 	vx.Run(t, "C49", func(c *vx.Ctx) {
 		bounds := vx.Pick(c, []int{2}, []int{-1})
-		c.Rule("concurrent part: for every unordered pair of calls from a small alphabet (NewVM of a program followed by Run on up to three packets with the VM just built: the ether/IP filter, two scratch-memory programs with different values and slots, ALU with X incl. division by X=0, ldx msh + indirect loads incl. out of bounds, one program with every jump form, three programs NewVM rejects (jump past the end, constant division by zero, unimplemented extension); thorough: also a program without final return and a constant-operand ALU chain) two threads run one call each (thorough: twice each) on the instrumented bpf source starting from the package's initial state; every schedule (quick: at most 2 preemptions; thorough: unbounded) at the scheduling points — before each statement mentioning a written package-level variable " + fmt.Sprint(zzWrittenGlobals) + ", sync.Once, sync.Pool Get/Put, sync.Mutex — is executed and each call must return what it returns alone (NewVM's error text, every verdict and every Run error)")
+		c.Rule("concurrent part: for every unordered pair of calls from a small alphabet (NewVM of a program followed by Run on up to four packets with the VM just built: the ether/IP filter, two scratch-memory programs with different values and slots, ALU with X incl. division by X=0, ldx msh + indirect loads incl. out of bounds, one program with every jump form, three programs NewVM rejects (jump past the end, constant division by zero, unimplemented extension); thorough: also a program without final return and a constant-operand ALU chain) two threads run one call each (thorough: twice each) on the instrumented bpf source starting from the package's initial state; every schedule (quick: at most 2 preemptions; thorough: unbounded) at the scheduling points — before each statement mentioning a written package-level variable " + fmt.Sprint(zzWrittenGlobals) + ", sync.Once, sync.Pool Get/Put, sync.Mutex — is executed and each call must return what it returns alone (NewVM's error text, every verdict and every Run error)")
 		c.Assume("concurrent part: each thread builds its own VM over its own copy of the program and packets (a VM shared between goroutines is not exercised); statement granularity at mentions of written package-level variables; accesses to heap objects only reachable from them and mutation through method calls are not scheduling points; if the package has no written package-level variable there is exactly one schedule per pair (the calls cannot interact through package state) and the part degenerates to a sequential differential test — it is kept because it is what catches a change that introduces shared state")
 		seq := 0
 		if !c.Quick() {
